@@ -95,13 +95,21 @@ def rule_who_constructs(fx, rep):
                   % (POINT_TYPES[sites[0][0]], sites[0][1]), sites[0][1], construct=p)
         if cls == 'identity-constant':
             # coordinates are constants of the field (zero / one), infinity true or z = zero
-            b = fx.body(p)
-            o = Origin(b)
-            t = o.local(0)
-            ok = t[0] == 'agg' and all((x[0] == 'call' and x[1] and x[1].get('name') in ('zero', 'one') and not x[2]) or (x[0] == 'const') for x in t[2])
-            names = [x[1].get('name') if x[0] == 'call' else x[1].get('v') for x in t[2]] if t[0] == 'agg' else []
+            def tri(I, fr, t, c, pth):
+                if c.get('trait') == 'ff::Field' and c.get('name') in ('zero', 'one') and not t['args']:
+                    fr.storev(t['dest'], c['name'])
+                    return True
+                return False
+            import inline as INL
+            II = exp.Interp(fx, 'none', extra_transfer=tri, inline=lambda q: INL.is_private_helper(fx, q))
             want = ['zero', 'one', True] if 'Affine' in POINT_TYPES[sites[0][0]] else ['zero', 'one', 'zero']
-            rep.check(ok and names == want, 'WIRE', 'identity-shape:%s' % p, 'identity = %s' % want, 'identity is built as %s' % names, sites[0][1], construct=p)
+            try:
+                resi = II.run(p, [])
+                v = resi[0][1] if len(resi) == 1 else None
+                names = [(bool(x.v) if isinstance(x, exp.Int) else x) for x in v.items] if isinstance(v, exp.Agg) else v
+            except (exp.NotDerivable, exp.Budget) as e:
+                names = 'not derivable: %s' % e
+            rep.check(names == want, 'WIRE', 'identity-shape:%s' % p, 'identity = %s' % want, 'identity is built as %s' % (names,), sites[0][1], construct=p)
         if cls == 'conversion':
             # every coordinate derives from the converted point (or a field constant)
             b = fx.body(p)
@@ -214,45 +222,62 @@ def rule_random(fx, rep):
             rep.fail('TS', '%s:random:anchor' % G, 'random not found')
             continue
         rep.fn(rnd)
-        o = Origin(b)
         where = fx.fn(rnd)['span']
-        rets = [(bi, s) for bi, blk in enumerate(b.blocks) if bi in b.reachable() for s in blk['stmts'] if s['k'] == 'assign' and s['place'] == {'l': 0, 'p': []}]
-        ok = len(rets) == 1
-        why = '%d assignments to the result' % len(rets)
-        if ok:
-            bi, s = rets[0]
-            t = strip(o.operand(s['rv']['op'])) if s['rv']['k'] == 'use' else ('unknown',)
-            ok = t[0] == 'call' and (t[1].get('res') or '') == sbc
-            why = 'returns %s' % term_str(t)
-            if ok:
-                src = strip(t[2][0])
-                while src[0] == 'proj':
-                    src = strip(src[1])
-                ok = src[0] == 'call' and (src[1].get('res') or '') == RG.get('get_point_from_x')
-                why = 'the scaled point is %s, not a get_point_from_x result' % term_str(src)
-            if ok:
-                # guarded by !is_zero(result): find the switch on is_zero of that value dominating the return block
-                guards = []
-                for gi, blk in enumerate(b.blocks):
-                    tt = blk['term']
-                    if tt['k'] != 'switch':
-                        continue
-                    d = o.operand(tt['discr'])
-                    neg = False
-                    while d[0] == 'unop' and d[1] == 'Not':
-                        neg = not neg
-                        d = d[2]
-                    d = strip(d)
-                    if d[0] == 'call' and d[1].get('name') == 'is_zero' and d[1].get('trait') == 'CurveProjective':
-                        arg = strip(d[2][0])
-                        if arg[0] == 'call' and (arg[1].get('res') or '') == sbc:
-                            # edge on which is_zero is false
-                            zero_false = [bb for v, bb in tt['targets'] if v == 0]
-                            nonzero_edge = (tt['otherwise'] if neg else (zero_false[0] if zero_false else None))
-                            guards.append(nonzero_edge)
-                ok = any(g is not None and b.dominates(g, bi) for g in guards)
-                why = 'the return is not guarded by !is_zero() of the scaled point'
-        rep.check(ok, 'TS', '%s:random' % G, 'returns scale_by_cofactor(get_point_from_x(..)) only when it is not the identity', why, where, construct=rnd)
+        import inline as INL
+        import stdmodel
+        gpfx = RG.get('get_point_from_x')
+
+        def trr(I, fr, t, c, pth, sbc=sbc, gpfx=gpfx):
+            r_ = c.get('res') or c['def']
+            nm = c.get('name')
+            if nm == 'random' and c.get('trait') == 'ff::Field':
+                k = sum(1 for e in pth.events if e[0] == 'draw')
+                if k >= 1:
+                    return 'panic'          # second trip through the retry loop: same code again
+                pth.events.append(('draw', k))
+                fr.storev(t['dest'], ('x', k))
+                return True
+            if c.get('trait') == 'rand_core::RngCore' or r_.startswith('rand_core::'):
+                fr.storev(t['dest'], exp.TOP)
+                return True
+            if r_ == gpfx:
+                fr.storev(t['dest'], exp.Opt(None, ('candidate', fr.operand(t['args'][0])), ('gpfx', t['span'])))
+                return True
+            if r_ == sbc:
+                fr.storev(t['dest'], ('scaled', fr.deref_operand(t['args'][0])))
+                return True
+            if nm == 'is_zero' and c.get('trait') == 'CurveProjective':
+                fr.storev(t['dest'], ('bool', ('is_identity', fr.deref_operand(t['args'][0]))))
+                return True
+            return stdmodel.result_transfer(I, fr, t, c, pth)
+        IR = exp.Interp(fx, 'none', extra_transfer=trr, max_paths=64, inline=lambda q: INL.is_private_helper(fx, q) and q not in (sbc, gpfx))
+        IR.fork_inlined = True
+        ok, why = True, ''
+        n_ret = 0
+        try:
+            resr = IR.run(rnd, [('byref', exp.TOP)])
+            rep.sites(IR.call_sites)
+            import tt as TT
+            for pth, ret, _o in resr:
+                if isinstance(ret, tuple) and ret and ret[0] == 'diverges':
+                    continue
+                n_ret += 1
+                if not (isinstance(ret, tuple) and ret and ret[0] == 'scaled' and isinstance(ret[1], tuple) and ret[1] and ret[1][0] == 'candidate'):
+                    ok, why = False, 'returns %r, expected scale_by_cofactor(get_point_from_x(..))' % (ret,)
+                    break
+                guarded = False
+                for lab, taken in pth.labels:
+                    x, neg = TT.strip_not(lab)
+                    if isinstance(x, tuple) and x and x[0] == 'is_identity' and x[1] == ret and ((taken != 0) == neg):
+                        guarded = True
+                if not guarded:
+                    ok, why = False, 'the return is not guarded by !is_zero() of the scaled point'
+                    break
+            if ok and not n_ret:
+                ok, why = False, 'no returning path found'
+        except (exp.NotDerivable, exp.Budget) as e:
+            ok, why = False, 'not derivable: %s' % e
+        rep.check(ok, 'TS', '%s:random' % G, 'every returning path yields scale_by_cofactor(get_point_from_x(..)) under "not the identity" (retry loop interpreted for one trip)', why, where, construct=rnd)
 
 
 def rules(fx, rep):
